@@ -655,6 +655,69 @@ class CIMachine(FormatMachine):
                 CTX.probe("ci.child_variant_serialised")
         return r
 
+    def op_ci_downgrade(self, op):
+        """F8: rewrite the stored composeinfo the way an older format version held it (doc/composeinfo-1.0.rst,
+        -1.1.rst, property text): 1.1 = header type; 1.0 = no header type, no release/base_product 'type';
+        0.3 = 'product' section, variants related only by UID prefix (no 'variants' lists), no 'internal';
+        < 0.3 = additionally compose date/type/respin derivable only from the id."""
+        import json
+        path = self.path(op)
+        d = self.durable.get(path)
+        if d is None or not d["clean"] or d["expected"] is None or d.get("legacy"):
+            return "noop"
+        ver = op.get("version", "1.0")
+        vt = tuple(int(x) for x in ver.split("."))
+        doc = json.loads(self.fs.get(path).decode("utf-8"))
+        exp = copy.deepcopy(d["expected"])
+        p = doc["payload"]
+        if vt >= (1, 1):
+            doc["header"] = {"version": ver, "type": "productmd.composeinfo"}
+        else:
+            doc["header"] = {"version": ver}
+        forest = exp["forest"]
+        if vt < (1, 1):
+            p["release"].pop("type", None)
+            exp["release"]["type"] = "ga"
+            if "base_product" in p:
+                p["base_product"].pop("type", None)
+                exp["base_product"]["type"] = "ga"
+            for uid, v in p["variants"].items():
+                if "release" in v:
+                    v["release"].pop("type", None)
+                    forest[uid]["release"]["type"] = "ga"
+        if vt < (1, 0):
+            depth = max([u.count("-") for u, v in forest.items() if v["parent"] is not None] + [0])
+            if any(v["parent"] is not None and v["parent"].count("-") > 0 for v in forest.values()):
+                return "noop-too-deep"        # legacy prefix derivation knows two levels only
+            tops = set(u for u, v in forest.items() if v["parent"] is None)
+            for u in tops:
+                if "-" in u and u.rsplit("-", 1)[0] in forest:
+                    return "noop-ambiguous-prefix"
+            p["product"] = p.pop("release")
+            p["product"].pop("internal", None)
+            exp["release"]["internal"] = False
+            for uid, v in p["variants"].items():
+                v.pop("variants", None)
+                if "release" in v:
+                    v["product"] = v.pop("release")
+                    v["product"].pop("internal", None)
+                    forest[uid]["release"]["internal"] = False
+        if vt < (0, 3):
+            c = p["compose"]
+            if c["respin"] >= 10 ** 7 or any(ch.isdigit() for ch in "") :
+                return "noop-respin"
+            import re as _re
+            if _re.search(r"\d{8}", exp["release"]["version"] + (exp["base_product"] or {}).get("version", "")):
+                return "noop-version-digits"
+            c.pop("date", None)
+            c.pop("respin", None)
+            c["type"] = "whatever"
+            CTX.probe("c05.composeinfo_compose_from_id")
+        self.fs.put(path, json.dumps(doc, indent=4, sort_keys=True, separators=(",", ": ")))
+        self.durable[path] = {"expected": exp, "bytes": self.fs.get(path), "clean": True, "legacy": True, "legacy_version": ver,
+                              "legacy_prop": op.get("tag", "C05"), "source": "downgrade", "kw": {}}
+        return "downgraded:" + ver
+
     def model_from_expected(self, s, expected):
         path = self._last_restart_path
         d = self.durable[path]
@@ -683,6 +746,9 @@ class CIMachine(FormatMachine):
             else:
                 mv["release"] = {"name": None, "short": None, "version": None, "type": None, "is_layered": True, "internal": False}
         return m
+
+    def model_from_observation(self, obs):
+        return self._model_from_observation(obs)
 
     def _model_from_observation(self, expected):
         m = {"release": dict(expected["release"]), "compose": dict(expected["compose"]), "vars": {}, "top": []}
